@@ -105,10 +105,12 @@ class DistributeMapper(IdentityMapper):
             return expr
         else:
             # not the smartest thing we can do, but at least *something*
-            return pymbolic.flattened_product([
+            # (through the mapper once more: the numerator may have become
+            # a sum, which is to be multiplied out)
+            return self.rec(pymbolic.flattened_product([
                     type(expr)(1, self.rec(expr.denominator)),
                     self.rec(expr.numerator)
-                    ])
+                    ]))
 
     def map_power(self, expr):
         from pymbolic.primitives import Power, Sum
